@@ -415,6 +415,8 @@ def check(ctx):
     check_import(ctx, fr)
     ctx.rule("R17.8", "the swaps from_pyzx routes wires with are the requested permutations (C10, including the zx override of Diagram.swap)")
     ctx.depend("R17.8", "C10", "from_pyzx moves wires with Diagram.swap(k, 1) / swap(1, k): the block of k wires and the single wire are exchanged as requested", mod="discopy.quantum.zx")
+    ctx.rule("R17.9", "the generators read by to_pyzx and built by from_pyzx (legs, phase as data, default phase 0) are the ones of C16 R16.5")
+    ctx.depend("R17.9", "C16", "to_pyzx reads box.phase and the numbers of legs, from_pyzx builds Z(m, n, phase) / X(m, n, phase): the constructors must mean what both sides assume", rules={"R16.5"}, mod="discopy.quantum.zx")
     ctx.floor("R17.1", 12)
     ctx.floor("R17.2", 11)
     ctx.floor("R17.3", 4)
